@@ -307,118 +307,140 @@ def real_pool_task(payload):
 # ---------------------------------------------------------------------------------------
 # conformance of the pool model: schedules observed from the real pool are members of the modelled set
 
-_LOG = {"path": None, "delays": {}}
+_LOG = {"path": None, "delays": (), "calls": []}
 
 
-def _logged_fva_step(reaction_id):
-    import os
-    import time
-
-    from cobra.flux_analysis import variability as V
-
-    d = _LOG["delays"].get(reaction_id, 0.0)
-    if d:
-        time.sleep(d)
-    with open(_LOG["path"], "a") as fh:
-        fh.write(f"{os.getpid()} {reaction_id}\n")
-    return _ORIG["fva"](reaction_id)
+def _item_key(item):
+    if isinstance(item, str):
+        return item
+    try:
+        return "+".join(sorted(str(getattr(i, "id", i)) for i in item))
+    except TypeError:
+        return str(item)
 
 
-def _logged_gene_worker(ids):
-    import os
-    import time
+class _Logged:
+    """Picklable wrapper of the worker function the library hands to its pool: sleeps the delay assigned to the
+    item's position, logs (worker pid, position), calls the real function.  Independent of the function's name."""
 
-    key = "+".join(sorted(ids))
-    d = _LOG["delays"].get(key, 0.0)
-    if d:
-        time.sleep(d)
-    with open(_LOG["path"], "a") as fh:
-        fh.write(f"{os.getpid()} {key}\n")
-    return _ORIG["gene"](ids)
+    def __init__(self, func, path, keys, delays):
+        self.func, self.path, self.keys, self.delays = func, path, keys, delays
+
+    def __call__(self, item):
+        import os
+        import time
+
+        pos = self.keys.index(_item_key(item))
+        d = self.delays[pos] if pos < len(self.delays) else 0.0
+        if d:
+            time.sleep(d)
+        with open(self.path, "a") as fh:
+            fh.write(f"{os.getpid()} {pos}\n")
+        return self.func(item)
 
 
-_ORIG = {}
+def _logging_pool_class():
+    """Subclass of the library's own ProcessPool that records, per imap_unordered/map call, the submitted order and
+    the chunk size actually requested, and wraps the worker function with `_Logged`."""
+    import cobra.util.process_pool as PP
+
+    class LoggingPool(PP.ProcessPool):
+        def _wrap(self, func, iterable, chunksize):
+            items = list(iterable)
+            keys = [_item_key(i) for i in items]
+            call = {"keys": keys, "chunksize": chunksize, "first_line": None}
+            with open(_LOG["path"]) as fh:
+                call["first_line"] = len(fh.read().splitlines())
+            _LOG["calls"].append(call)
+            return _Logged(func, _LOG["path"], keys, tuple(_LOG["delays"])), items
+
+        def imap_unordered(self, func, iterable, chunksize=1):
+            f, items = self._wrap(func, iterable, chunksize)
+            return self._pool.imap_unordered(f, items, chunksize=chunksize)
+
+        def map(self, func, iterable, chunksize=None):
+            f, items = self._wrap(func, iterable, chunksize)
+            return self._pool.map(f, items, chunksize=chunksize)
+
+    return LoggingPool
 
 
 def conformance_task(payload):
-    """Run the real pool under a logging wrapper with every 0/5 ms delay pattern over the first k tasks and check
-    that the observed (worker -> tasks) schedule is one the pool model can produce: chunks are consecutive slices
-    of the submitted order, every worker processes whole chunks in increasing order."""
+    """Bind the pool model to CPython's pool: run the library's real pool (a logging subclass of its ProcessPool)
+    with every 0/5 ms delay pattern over the first k submitted tasks and check that every observed
+    (worker -> tasks) schedule is one the pool model can produce: chunks are consecutive slices of the submitted
+    order of the size the library asked for, and every worker processes whole chunks in increasing order.
+    A mismatch means the *model* of the pool is wrong (reported as an internal error, never as a violation of
+    C14); results that differ from processes=1 are violations."""
     import itertools
     import os
     import tempfile
 
-    import cobra.flux_analysis.deletion as D
-    import cobra.flux_analysis.variability as V
     from cobra.flux_analysis import flux_variability_analysis, single_gene_deletion
 
+    from ..seams import vpool
+
     which, procs, k = payload["which"], payload["procs"], payload["k"]
-    stats = {"conformance_runs": 0, "observed_schedules": set()}
+    stats = {"conformance_runs": 0, "observed_schedules": set(), "conformance_pool_calls": 0}
     violations = []
-    _ORIG["fva"] = V._fva_step
-    _ORIG["gene"] = D._gene_deletion_worker
+    model_errors = []
     fd, path = tempfile.mkstemp(prefix="c14_log_")
     os.close(fd)
     _LOG["path"] = path
     try:
         items = ["v1", "v2", "v3", "tC", "tA"] if which == "fva" else ["g1", "g2", "g3", "g4", "g5"]
         for pattern in itertools.product((0.0, 0.005), repeat=k):
-            _LOG["delays"] = dict(zip(items, pattern))
+            _LOG["delays"] = pattern
+            _LOG["calls"] = []
             open(path, "w").close()
             with warnings.catch_warnings():
                 warnings.simplefilter("ignore")
                 m = build_model("base")
-                if which == "fva":
-                    base = canon(flux_variability_analysis(build_model("base"), reaction_list=items, processes=1))
-                    V._fva_step = _logged_fva_step
-                    try:
-                        res = canon(flux_variability_analysis(m, reaction_list=items, processes=procs))
-                    finally:
-                        V._fva_step = _ORIG["fva"]
-                else:
-                    base = canon(single_gene_deletion(build_model("base"), items, processes=1))
-                    D._gene_deletion_worker = _logged_gene_worker
-                    try:
-                        res = canon(single_gene_deletion(m, items, processes=procs))
-                    finally:
-                        D._gene_deletion_worker = _ORIG["gene"]
+                fn = flux_variability_analysis if which == "fva" else single_gene_deletion
+                kw = {"reaction_list": items} if which == "fva" else {"gene_list": items}
+                base = canon(fn(build_model("base"), processes=1, **kw))
+                if vpool.rebind_pool_class(_logging_pool_class()) == 0:
+                    return {"violations": [], "stats": {"conformance_seam_missing": 1}}
+                try:
+                    res = canon(fn(m, processes=procs, **kw))
+                finally:
+                    vpool.restore_pool_class()
             stats["conformance_runs"] += 1
             case = {"conformance": which, "procs": procs, "pattern": list(pattern)}
             if not same(res, base):
                 violations.append(({"fn": which, "check": "real pool with delays differs from processes=1", "procs": procs},
                                    case, f"{res}\n{base}"))
             lines = [ln.split() for ln in open(path).read().splitlines()]
-            if which == "fva":
-                # two pools (minimum, maximum): split the log in two halves by count
-                half = len(lines) // 2
-                logs = [lines[:half], lines[half:]]
-                submitted = items
-            else:
-                logs = [lines]
-                submitted = None  # cobrapy iterates over a set: the submitted order is the set's iteration order
-            for lg in logs:
+            calls = _LOG["calls"]
+            stats["conformance_pool_calls"] += len(calls)
+            for ci, call in enumerate(calls):
+                end = calls[ci + 1]["first_line"] if ci + 1 < len(calls) else len(lines)
+                lg = lines[call["first_line"]:end]
+                n = len(call["keys"])
                 per = {}
-                for pid, it in lg:
-                    per.setdefault(pid, []).append(it)
-                if sorted(i for v in per.values() for i in v) != sorted(items if which == "fva" else items):
-                    violations.append(({"fn": which, "check": "conformance: tasks lost or duplicated in the real pool", "procs": procs},
-                                       case, str(per)))
+                for pid, pos in lg:
+                    per.setdefault(pid, []).append(int(pos))
+                if sorted(i for v in per.values() for i in v) != list(range(n)):
+                    violations.append(({"fn": which, "check": "conformance: tasks lost or duplicated in the real pool",
+                                        "procs": procs}, case, str(per)))
                     continue
-                chunksize = max(1, len(items) // procs)
-                if submitted is not None:
-                    pos = {it: i for i, it in enumerate(submitted)}
-                    for pid, its in per.items():
-                        idx = [pos[i] for i in its]
-                        ok = idx == sorted(idx) and all(
-                            idx[j] % chunksize == 0 or (j > 0 and idx[j] == idx[j - 1] + 1) for j in range(len(idx)))
-                        if not ok:
-                            violations.append(({"fn": which, "check": "conformance: observed schedule outside the pool model",
-                                                "procs": procs}, case, f"worker {pid} ran positions {idx} (chunksize {chunksize})"))
+                chunksize = max(1, call["chunksize"] or 1) if call["chunksize"] is not None else None
+                if chunksize is None:   # Pool.map default: ceil(n / (4 * processes))
+                    chunksize = max(1, -(-n // (4 * procs)))
+                for pid, idx in per.items():
+                    ok = idx == sorted(idx) and all(
+                        idx[j] % chunksize == 0 or (j > 0 and idx[j] == idx[j - 1] + 1) for j in range(len(idx)))
+                    if not ok:
+                        model_errors.append(f"{which} procs={procs} pattern={pattern}: worker {pid} ran positions {idx} "
+                                            f"(chunksize {chunksize}) - outside the pool model")
                 stats["observed_schedules"].add(tuple(sorted(tuple(v) for v in per.values())))
     finally:
         os.unlink(path)
     stats["observed_schedules"] = len(stats["observed_schedules"])
-    return {"violations": violations[:20], "stats": stats}
+    out = {"violations": violations[:20], "stats": stats}
+    if model_errors:
+        out["internal_error"] = "pool model does not conform to the real pool: " + "; ".join(model_errors[:3])
+    return out
 
 
 def dispatch(payload):
@@ -512,6 +534,8 @@ def explore(ctx):
         "max_chunks_in_one_call": stats.get("max_chunks", 0),
         "conformance_runs_real_pool_with_delays": stats.get("conformance_runs", 0),
         "conformance_observed_schedules": stats.get("observed_schedules", 0),
+        "conformance_pool_calls_logged": stats.get("conformance_pool_calls", 0),
+        "conformance_seam_missing": stats.get("conformance_seam_missing", 0),
     })
     ctx.sample({"fn": "single_gene_deletion", "processes": 3, "choices": [0, 1, 0, 0, 1], "meaning": "chunk->worker, delivery"})
     ctx.assumptions += ["workers never communicate with the parent while running, so serial lock-step execution of the forked "
